@@ -40,6 +40,12 @@ def gateStatus (hdr : Bool) (allow : String → Bool) : List UiEv → Nat
   | [] => 200
   | e :: r => if isGate e then (if !hdr then 401 else if !allow e.ns then 403 else gateStatus hdr allow r) else gateStatus hdr allow r
 
+/-- the same when the answer of a review depends on its position in the request (resource-granular RBAC, a review that
+    fails): `allow i` answers the `i`-th review -/
+def gateStatusN (hdr : Bool) (allow : Nat → Bool) : List UiEv → Nat → Nat
+  | [], _ => 200
+  | e :: r, i => if isGate e then (if !hdr then 401 else if !allow i then 403 else gateStatusN hdr allow r (i + 1)) else gateStatusN hdr allow r i
+
 /-- the routes of the known finding: trial-template endpoints list ConfigMaps of every namespace before reviewing -/
 def templateRoute (r : UiRoute) : Bool :=
   r.events.any (fun e => e.what == "GetTrialTemplates" && e.ctx == "loop") &&
